@@ -172,7 +172,12 @@ func (ip *Inode) Resize(atxn *alloctxn.AllocTxn, sz uint64) bool {
 		// they must read as zero if the file grows again.
 		ip.zeroTail(atxn, sz)
 	}
-	oldsz := util.RoundUp(ip.Size, disk.BlockSize)
+	var oldsz = util.RoundUp(ip.Size, disk.BlockSize)
+	if ip.ShrinkSize > oldsz {
+		// an earlier shrink is still pending (REMOVE does not wait for
+		// it): the blocks it has not freed yet are still this inode's
+		oldsz = ip.ShrinkSize
+	}
 	util.DPrintf(5, "Resize %v to sz %d\n", oldsz, newSz)
 	ip.Size = newSz
 	newSz = util.RoundUp(sz, disk.BlockSize)
